@@ -169,7 +169,8 @@ pub fn aig_to_cells_techmap(aig: &AigModule, original: &GateModule) -> GateModul
     for (i, sink) in aig.sinks.iter().enumerate() {
         let src_net = resolve(&mut out, &mut pos_net, &mut neg_net, sink.edge);
         if i >= port_out_count + ff_count {
-            // RAM input (see `aigify`): rewired below in the same order.
+            // RAM input / FF clock / FF reset (see `aigify`): rewired below
+            // in the same order.
             ram_input_nets.push(src_net);
         } else if i < port_out_count {
             let target = sink.target;
@@ -193,6 +194,16 @@ pub fn aig_to_cells_techmap(aig: &AigModule, original: &GateModule) -> GateModul
             *n = src;
         }
     });
+    for ff in out.ffs.iter_mut() {
+        if let Some(src) = ram_input_iter.next() {
+            ff.clock = src;
+        }
+        if let Some(reset) = ff.reset.as_mut()
+            && let Some(src) = ram_input_iter.next()
+        {
+            reset.net = src;
+        }
+    }
     out
 }
 
